@@ -555,6 +555,14 @@ func (c *Ctx) claimsBeforePod() {
 		return true
 	})
 	c.Check(!early, "C06.2-claim-loop-no-early-exit", "createPersistentVolumeClaims: loop", loop.Pos(), "the loop is left only when every claim has been handled", "the claim loop can be left early (break/return): later claims are never looked up or created")
+	// every claim is looked up: no iteration ends without the lister having been asked about this claim (a claim taken
+	// for granted from an earlier reconcile may have been deleted since)
+	if len(loop.Body.List) > 0 && head != nil {
+		start := loop.Body.List[0]
+		aG := cfn.FromUntil(start, can.StateBefore(start), pvcGet)
+		c.Check(!aG.BlockReached(head), "C06.2-every-claim-is-looked-up", "createPersistentVolumeClaims: lookup", pvcGet.Pos(), "every iteration passes the claim lookup",
+			"an iteration can end without looking the claim up: its existence is assumed, and the pod is created although the claim may be gone")
+	}
 	// NotFound reaches Create; the created claim is the loop's claim
 	getStmt := stmtOf(cl.Decl.Body, pvcGet)
 	if as, ok := getStmt.(*ast.AssignStmt); ok {
